@@ -12,6 +12,7 @@ are ignored by the real code when `allow_unresolved` is set and rejected up
 front otherwise, hence every edge relation below is restricted to present keys.
 -/
 import EdbVerif.Lemmas.Topo
+import EdbVerif.Lemmas.OrdSet
 
 namespace EdbVerif.C20
 open EdbVerif.Topo
@@ -51,6 +52,50 @@ theorem topo_unres (g : Graph) (allow : Bool) :
 theorem topo_fuel (g : Graph) (hwf : WF g) (fuel : Nat) (hf : g.length + 1 ≤ fuel) :
     topLoop g fuel g.keys {} = topLoop g (g.length + 1) g.keys {} :=
   Topo.topLoop_fuel g hwf fuel hf
+
+/-! ### The container the determinism half rests on: `edb/common/ordered.py::OrderedSet`
+
+`sortEx` consumes its edge lists in the given order; the real callers hand over
+`OrderedSet`s.  These theorems say that, for EVERY history of operations, the
+iteration order of an `OrderedSet` is a function of that history with the
+insertion-order law, so "the given order" is well defined and reproducible. -/
+
+open EdbVerif.OrdSet in
+/-- every reachable state iterates each key exactly once -/
+theorem oset_nodup (ops : List Op) : (run ops).Nodup := OrdSet.nodup_run ops
+
+open EdbVerif.OrdSet in
+/-- set semantics of every operation (refinement to the abstract set) -/
+theorem oset_mem (s : OSet) (y : Nat) :
+    (∀ x, y ∈ step s (.add x) ↔ y ∈ s ∨ y = x) ∧
+    (∀ x, y ∈ step s (.discard x) ↔ y ∈ s ∧ y ≠ x) ∧
+    (∀ xs, y ∈ step s (.update xs) ↔ y ∈ s ∨ y ∈ xs) ∧
+    (∀ xs, y ∈ step s (.diff xs) ↔ y ∈ s ∧ y ∉ xs) ∧
+    (∀ xs, y ∈ step s (.inter xs) ↔ y ∈ s ∧ y ∈ xs) ∧
+    (∀ xs, y ∈ step s (.sym xs) ↔ ((y ∈ s ∧ y ∉ xs) ∨ (y ∉ s ∧ y ∈ xs))) ∧
+    y ∉ step s .clear :=
+  ⟨fun x => OrdSet.mem_add s x y, fun x => OrdSet.mem_discard s x y,
+   fun xs => OrdSet.mem_update s xs y, fun xs => OrdSet.mem_diffUpdate s xs y,
+   fun xs => OrdSet.mem_interUpdate s xs y, fun xs => OrdSet.mem_symUpdate s xs y, by simp [step]⟩
+
+open EdbVerif.OrdSet in
+/-- insertion-order law: after any single operation the keys that survive keep
+    their relative order and every key that was not present before comes after
+    all of them (so re-adding a present key never moves it). -/
+theorem oset_order (s : OSet) (op : Op) :
+    ∃ (keep : Nat → Bool) (new : List Nat),
+      step s op = s.filter keep ++ new ∧ ∀ y ∈ new, y ∉ s :=
+  OrdSet.ext_step s op
+
+open EdbVerif.OrdSet in
+/-- `OrderedSet(iterable)` keeps first occurrences in order: it is a
+    duplicate-free list with the members of the iterable -/
+theorem oset_ofList (xs : List Nat) : (ofList xs).Nodup ∧ ∀ y, y ∈ ofList xs ↔ y ∈ xs :=
+  ⟨OrdSet.nodup_ofList xs, OrdSet.mem_ofList xs⟩
+
+open EdbVerif.OrdSet in
+example : run [.update [3, 1, 3, 2], .add 1, .discard 3, .add 3, .sym [2, 7, 7], .inter [3, 7, 9]]
+    = [3, 7] := by decide
 
 /-! ### Non-vacuity: concrete graphs meeting the hypotheses -/
 
